@@ -81,7 +81,7 @@ func c10One(c *mc.Ctx, frame []byte, k c10Case) {
 			src = append([]byte{}, frame...)
 		}
 		if k.Stream {
-			r = bufiox.NewDefaultReader(NewEnvReader(src, k.Env))
+			r = bufiox.NewDefaultReader(NewEnvReader(src, k.Env).Src())
 		} else {
 			r = bufiox.NewBytesReader(src)
 		}
